@@ -173,4 +173,127 @@ Section KB.
       unfold dec_key_value. rewrite c_type_head. rewrite Z.eqb_refl.
       unfold c_bytes. erewrite c_scalar_hit by eassumption. cbn [bind fst snd]. reflexivity.
   Qed.
+
+  (** ** KeyBlock *)
+  Lemma rt_key_block f : Q f -> forall fc st d tag fs items st' sc,
+    find_tdef S (t_name d) = Some d -> t_custom_dec d = true ->
+    t_name d = "kmip.KeyBlock"%string ->
+    enc_ty (Datatypes.S f) st (TNamed (t_name d)) tag (VStruct (t_name d) fs) = Ok (items, st') ->
+    conf_key_block S (conf_ty fc) st d tag fs = Some sc ->
+    RT_concl (Datatypes.S f) st (TNamed (t_name d)) tag (VStruct (t_name d) fs) items st' sc.
+  Proof.
+    intros HQ fc st d tag fs items st' sc Ed Hcd Hname He Hc.
+    assert (EV : String.eqb (t_name d) "ttlv.Value" = false) by (rewrite Hname; reflexivity).
+    assert (ES : String.eqb (t_name d) "ttlv.Struct" = false) by (rewrite Hname; reflexivity).
+    unfold conf_key_block in Hc.
+    destruct (t_fields d) as [|f0 [|f1 [|f2 [|f3 [|f4 [|f5 [|? ?]]]]]]] eqn:Efl; try discriminate.
+    destruct fs as [|[kft| | | | | | | | |] [|kct [|kv [|alg [|ln [|kwd [|? ?]]]]]]]; try discriminate.
+    destruct (find_tdef S "kmip.KeyValue") as [kvd|] eqn:Ekvd; [|discriminate].
+    match type of Hc with (if ?c then _ else _) = _ => destruct c eqn:Hcond; [|discriminate] end.
+    injection Hc as <-.
+    rewrite !andb_true_iff in Hcond.
+    destruct Hcond as ((((((((((((((((((((((((Hce & Hpos) & Ho0) & Ho1) & Ho2) & Ho3) & Ho4) & Ho5) & Ht0) & Ht134) & Ht2) & Ht5) & Hdist) & Hkve) & Hkl) & Hk0) & Hk1) & Hc1) & Hc3) & Hc4) & Hz1) & Hz3) & Hz4) & Hkv) & Hc5).
+    apply negb_true_iff in Hce, Ho0, Ho2, Ho5. apply ty_eqb_eq in Ht2, Hk0, Hk1. apply Nat.eqb_eq in Hkl.
+    apply keeps_some in Hc1, Hc3, Hc4, Hc5.
+    pose proof (omit_zero_eq S _ _ Hz1) as Hz1'. pose proof (omit_zero_eq S _ _ Hz3) as Hz3'. pose proof (omit_zero_eq S _ _ Hz4) as Hz4'.
+    clear Hz1 Hz3 Hz4.
+    destruct (f_ty f0) as [k0| | | |] eqn:Et0; try discriminate.
+    destruct k0 as [| | | | | | | | | | | | | |r0|]; try discriminate. clear Ht0.
+    destruct (f_ty f1) as [k1| | | |] eqn:Et1; try discriminate.
+    destruct (f_ty f3) as [k3| | | |] eqn:Et3; try discriminate.
+    destruct (f_ty f4) as [k4| | | |] eqn:Et4; try discriminate. clear Ht134.
+    destruct (f_ty f5) as [|t5| | |] eqn:Et5; try discriminate. clear Ht5.
+    cbn [forallb] in Hpos. rewrite !andb_true_iff in Hpos. destruct Hpos as (Hp0 & Hp1 & Hp2 & Hp3 & Hp4 & Hp5 & _).
+    cbn [map] in Hdist.
+    destruct (tags_distinct_cons _ _ Hdist) as (Hn0 & _ & Hd1).
+    destruct (tags_distinct_cons _ _ Hd1) as (Hn1 & Hni1 & Hd2).
+    destruct (tags_distinct_cons _ _ Hd2) as (Hn2 & Hni2 & Hd3).
+    destruct (tags_distinct_cons _ _ Hd3) as (Hn3 & Hni3 & Hd4).
+    destruct (tags_distinct_cons _ _ Hd4) as (Hn4 & Hni4 & Hd5).
+    destruct (tags_distinct_cons _ _ Hd5) as (Hn5 & _ & _).
+    clear Hdist Hd1 Hd2 Hd3 Hd4 Hd5.
+    (* the encoder: six fields *)
+    rewrite enc_ty_eq, EV, ES, Ed, Hce in He. rewrite Efl in He.
+    destruct f as [|g1]; [discriminate|]. rewrite (enc_field_req S) in He by assumption. rewrite Et0 in He.
+    destruct (enc_ty g1 st (TScalar (KEnum r0)) (f_tag f0) (VInt kft)) as [[i0 s0]| | |] eqn:E0; cbn [bind fst snd] in He; try discriminate.
+    assert (Hc0 : conf_ty 1 st (TScalar (KEnum r0)) (f_tag f0) (VInt kft) = Some st).
+    { rewrite conf_ty_eq. reflexivity. }
+    destruct (Q_ty S OPS ATTRS OBJS F _ g1 HQ ltac:(lia) _ _ _ _ _ _ _ _ E0 Hc0) as (<- & Hta0 & Hone0 & _ & Hd0).
+    destruct (Hone0 eq_refl) as [it0 ->]. clear Hone0.
+    destruct g1 as [|g2]; [discriminate|]. rewrite (enc_field_omit S) in He by assumption. rewrite Et1 in He.
+    destruct (if is_zero kct then Ok ([], st) else enc_ty g2 st (TScalar k1) (f_tag f1) kct) as [[i1 s1]| | |] eqn:E1;
+      cbn [bind fst snd] in He; try discriminate.
+    destruct (dopt_omit S OPS ATTRS OBJS F g2 fc st _ _ _ _ _ (Q_ty S OPS ATTRS OBJS F _ g2 HQ ltac:(lia)) E1 Hc1 eq_refl Hz1')
+      as (-> & Hta1 & Hd1).
+    destruct g2 as [|g3]; [discriminate|]. rewrite (enc_field_req S) in He by assumption. rewrite Ht2 in He.
+    destruct (enc_ty g3 st (TPtr (TNamed "kmip.KeyValue")) (f_tag f2) kv) as [[i2 s2]| | |] eqn:E2; cbn [bind fst snd] in He; try discriminate.
+    assert (HQ3 : Q g3) by (intros g Hg; apply HQ; lia).
+    destruct (key_value_rt g3 HQ3 fc st kft (f_tag f2) kv i2 s2 kvd Ekvd Hkve Hkl Hk0 Hk1 E2 Hkv) as (-> & Hkvcase).
+    assert (Hta2 : tags_all (f_tag f2) i2).
+    { destruct Hkvcase as [[_ ->]|(i & -> & Hi & _)]; [constructor | constructor; [exact Hi | constructor]]. }
+    destruct g3 as [|g4]; [discriminate|]. rewrite (enc_field_omit S) in He by assumption. rewrite Et3 in He.
+    destruct (if is_zero alg then Ok ([], st) else enc_ty g4 st (TScalar k3) (f_tag f3) alg) as [[i3 s3]| | |] eqn:E3;
+      cbn [bind fst snd] in He; try discriminate.
+    destruct (dopt_omit S OPS ATTRS OBJS F g4 fc st _ _ _ _ _ (Q_ty S OPS ATTRS OBJS F _ g4 HQ ltac:(lia)) E3 Hc3 eq_refl Hz3')
+      as (-> & Hta3 & Hd3).
+    destruct g4 as [|g5]; [discriminate|]. rewrite (enc_field_omit S) in He by assumption. rewrite Et4 in He.
+    destruct (if is_zero ln then Ok ([], st) else enc_ty g5 st (TScalar k4) (f_tag f4) ln) as [[i4 s4]| | |] eqn:E4;
+      cbn [bind fst snd] in He; try discriminate.
+    destruct (dopt_omit S OPS ATTRS OBJS F g5 fc st _ _ _ _ _ (Q_ty S OPS ATTRS OBJS F _ g5 HQ ltac:(lia)) E4 Hc4 eq_refl Hz4')
+      as (-> & Hta4 & Hd4).
+    destruct g5 as [|g6]; [discriminate|]. rewrite (enc_field_req S) in He by assumption. rewrite Et5 in He.
+    destruct (enc_ty g6 st (TPtr t5) (f_tag f5) kwd) as [[i5 s5]| | |] eqn:E5; cbn [bind fst snd] in He; try discriminate.
+    destruct (Q_ty S OPS ATTRS OBJS F _ g6 HQ ltac:(lia) _ _ _ _ _ _ _ _ E5 Hc5) as (<- & Hta5 & _ & _ & Hd5).
+    destruct g6 as [|g7]; [discriminate|]. rewrite (enc_fields_nil S) in He. cbn [bind fst snd] in He.
+    injection He as <- <-.
+    split; [reflexivity|]. split; [constructor; [reflexivity | constructor]|]. split; [eauto|]. split; [intros; discriminate|].
+    intros es rest fd Hf _ Hfd. apply faithful_one_inv in Hf. destruct Hf as (e & -> & He1).
+    inversion He1 as [tag0 kids0 raw eks Hk| | | | | | | | | |]; subst tag0 kids0 e.
+    unfold items_size at 1 in Hfd. cbn [fold_right] in Hfd. rewrite item_size_struct in Hfd.
+    change ([it0] ++ i1 ++ i2 ++ i3 ++ i4 ++ i5 ++ [])%list with (it0 :: i1 ++ i2 ++ i3 ++ i4 ++ i5 ++ [])%list in Hk, Hfd.
+    rewrite items_size_cons, !items_size_app in Hfd. change (items_size []) with 0%nat in Hfd.
+    (* the children, one group per field; what follows an element that may be absent *)
+    assert (Hh5 : hd_in (i5 ++ []) [f_tag f5]) by (apply hd_in_app; [assumption | apply hd_in_nil]).
+    assert (Hh4 : hd_in (i4 ++ i5 ++ []) [f_tag f4; f_tag f5]) by (apply hd_in_app; assumption).
+    assert (Hh3 : hd_in (i3 ++ i4 ++ i5 ++ []) [f_tag f3; f_tag f4; f_tag f5]) by (apply hd_in_app; assumption).
+    assert (Hh2 : hd_in (i2 ++ i3 ++ i4 ++ i5 ++ []) [f_tag f2; f_tag f3; f_tag f4; f_tag f5]) by (apply hd_in_app; assumption).
+    apply faithful_cons_inv in Hk. destruct Hk as (e0 & ek1 & -> & Hf0 & Hr1).
+    apply faithful_app_inv in Hr1. destruct Hr1 as (e1 & ek2 & -> & Hf1 & Hr2).
+    pose proof (hd_in_neq F _ _ (f_tag f1) _ Hh2 Hr2 Hn1 Hni1) as Hnx1.
+    apply faithful_app_inv in Hr2. destruct Hr2 as (e2 & ek3 & -> & Hf2 & Hr3).
+    pose proof (hd_in_neq F _ _ (f_tag f2) _ Hh3 Hr3 Hn2 Hni2) as Hnx2.
+    apply faithful_app_inv in Hr3. destruct Hr3 as (e3 & ek4 & -> & Hf3 & Hr4).
+    pose proof (hd_in_neq F _ _ (f_tag f3) _ Hh4 Hr4 Hn3 Hni3) as Hnx3.
+    apply faithful_app_inv in Hr4. destruct Hr4 as (e4 & ek5 & -> & Hf4 & Hr5).
+    pose proof (hd_in_neq F _ _ (f_tag f4) _ Hh5 Hr5 Hn4 Hni4) as Hnx4.
+    apply faithful_app_inv in Hr5. destruct Hr5 as (e5 & enil & -> & Hf5 & Hknil).
+    apply faithful_nil_inv in Hknil. subst enil.
+    destruct fd as [|fd1]; [lia|]. destruct fd1 as [|fd2]; [lia|]. cbn [app].
+    rewrite (dec_ty_custom S OPS ATTRS OBJS F (Datatypes.S fd2) st d tag _ Ed Hcd EV ES).
+    unfold dec_custom_of. rewrite Hname.
+    change (String.eqb "kmip.KeyBlock" "kmip.RequestBatchItem") with false.
+    change (String.eqb "kmip.KeyBlock" "kmip.ResponseBatchItem") with false.
+    change (String.eqb "kmip.KeyBlock" "kmip.Credential") with false.
+    change (String.eqb "kmip.KeyBlock" "kmip.KeyBlock") with true. cbv iota.
+    unfold dec_key_block. rewrite Hname.
+    apply wrap_struct_ok with (l := []).
+    rewrite !fty_nth, !ftag_nth, Efl. cbn [nth]. rewrite Et0, Et1, Et3, Et4, Et5.
+    pose proof (Hd0 [e0] (e1 ++ e2 ++ e3 ++ e4 ++ e5 ++ []) (Datatypes.S fd2)) as Hd0'. cbn [app] in Hd0'.
+    rewrite Hd0'; [| constructor; [assumption | constructor] | discriminate | unfold items_size; cbn [fold_right]; lia].
+    cbn [bind fst snd int_of].
+    rewrite (Hd1 e1 _ fd2 Hf1 Hnx1) by lia. cbn [bind fst snd].
+    (* KeyValue: absent, or one element whose type selects wrapped / plain *)
+    match goal with |- bind ?m _ = _ =>
+      assert (Hdkv : m = Ok (kv, (e3 ++ e4 ++ e5 ++ [], false), st)) end.
+    { destruct Hkvcase as [[-> ->]|(i & -> & Hi & Hdi)].
+      - apply faithful_nil_inv in Hf2. subst e2. cbn [app].
+        destruct (Z.eqb_spec (c_tag (e3 ++ e4 ++ e5 ++ [], false)) (f_tag f2)); [contradiction | reflexivity].
+      - apply faithful_one_inv in Hf2. destruct Hf2 as (e & -> & Hfe). cbn [app].
+        rewrite (faithful1_tag F _ _ _ _ Hfe), Hi, Z.eqb_refl.
+        apply Hdi; [assumption|]. rewrite items_size_cons in Hfd. lia. }
+    rewrite Hdkv. cbn [bind fst snd].
+    rewrite (Hd3 e3 _ fd2 Hf3 Hnx3) by lia. cbn [bind fst snd].
+    rewrite (Hd4 e4 _ fd2 Hf4 Hnx4) by lia. cbn [bind fst snd].
+    rewrite (Hd5 e5 [] (Datatypes.S fd2) Hf5); [reflexivity | intros _; rewrite c_tag_nil; congruence | lia].
+  Qed.
 End KB.
